@@ -4,7 +4,10 @@ import (
 	"context"
 	"errors"
 	"io"
+	"net/http"
 	"time"
+
+	errorv1 "github.com/bufbuild/connect-go/internal/gen/connect/error/v1"
 )
 
 func errEOF() error { return io.EOF }
@@ -175,33 +178,145 @@ func (r *faultReader) Close() error {
 	return nil
 }
 
-// ---- JSON stubs (symbolic side only) -----------------------------------------
-// encoding/json is reflection-driven and not encoded.  On the symbolic side
-// the two entry points connect-go uses are replaced by a codec that is exact
-// on the domain the harnesses produce: an end-of-stream message without error
-// and without metadata is "{}" - byte-identical to what the real encoder
-// emits - and anything else is reported as undecodable/unsupported.
+// ---- JSON / protojson stubs (symbolic side only) -------------------------------
+// encoding/json and protojson are reflection-driven and not encoded.  On the
+// symbolic side the entry points connect-go uses are replaced by a private,
+// length-prefixed codec for exactly the values connect-go puts through them
+// (the wire error {code, message} and the end-of-stream message {error,
+// metadata}).  It is lossless on that domain - which is what is trusted about
+// the real encoders - and rejects everything else.  The empty end-of-stream
+// message is "{}", byte-identical to the real encoder's output, so that cut
+// offsets coincide in native replays.
+
+func putStr(out []byte, s string) []byte {
+	out = append(out, byte(len(s)))
+	return append(out, s...)
+}
+
+func getStr(data []byte, pos int) (string, int, bool) {
+	if pos >= len(data) {
+		return "", pos, false
+	}
+	n := int(data[pos])
+	if pos+1+n > len(data) {
+		return "", pos, false
+	}
+	return string(data[pos+1 : pos+1+n]), pos + 1 + n, true
+}
+
+var errStubDomain = errors.New("stub: value outside the modelled domain")
+
+//verif:stub (*github.com/bufbuild/connect-go.protoJSONCodec).Marshal@wire
+func stubProtoJSONMarshal(c *protoJSONCodec, message any) ([]byte, error) {
+	if m, ok := message.(*errorv1.Error); ok {
+		return putStr(putStr([]byte{'E'}, m.Code), m.Message), nil
+	}
+	return nil, errStubDomain
+}
+
+//verif:stub (*github.com/bufbuild/connect-go.protoJSONCodec).Unmarshal@wire
+func stubProtoJSONUnmarshal(c *protoJSONCodec, data []byte, message any) error {
+	m, ok := message.(*errorv1.Error)
+	if !ok {
+		return errStubDomain
+	}
+	if len(data) < 1 || data[0] != 'E' {
+		return errStubDomain
+	}
+	code, pos, ok1 := getStr(data, 1)
+	msg, pos, ok2 := getStr(data, pos)
+	if !ok1 || !ok2 || pos != len(data) {
+		return errStubDomain
+	}
+	m.Code, m.Message = code, msg
+	return nil
+}
 
 //verif:stub encoding/json.Marshal@json
 func stubJSONMarshal(v any) ([]byte, error) {
 	switch m := v.(type) {
+	case *connectWireError:
+		return m.MarshalJSON()
 	case *connectEndStreamMessage:
 		if m.Error == nil && len(m.Trailer) == 0 {
 			return []byte("{}"), nil
 		}
+		out := []byte{'S'}
+		if m.Error != nil {
+			e, err := m.Error.MarshalJSON()
+			if err != nil {
+				return nil, err
+			}
+			out = putStr(append(out, 1), string(e))
+		} else {
+			out = append(out, 0)
+		}
+		out = append(out, byte(len(m.Trailer)))
+		for k, vs := range m.Trailer {
+			out = putStr(out, k)
+			out = append(out, byte(len(vs)))
+			for _, x := range vs {
+				out = putStr(out, x)
+			}
+		}
+		return out, nil
 	}
-	return nil, errors.New("json stub: value outside the modelled domain")
+	return nil, errStubDomain
 }
 
 //verif:stub encoding/json.Unmarshal@json
 func stubJSONUnmarshal(data []byte, v any) error {
-	switch v.(type) {
+	switch m := v.(type) {
+	case *connectWireError:
+		return m.UnmarshalJSON(data)
 	case *connectEndStreamMessage:
 		if string(data) == "{}" {
 			return nil
 		}
+		if len(data) < 3 || data[0] != 'S' {
+			return errStubDomain
+		}
+		pos := 2
+		if data[1] == 1 {
+			e, p, ok := getStr(data, pos)
+			if !ok {
+				return errStubDomain
+			}
+			pos = p
+			m.Error = &connectWireError{}
+			if err := m.Error.UnmarshalJSON([]byte(e)); err != nil {
+				return err
+			}
+		}
+		if pos >= len(data) {
+			return errStubDomain
+		}
+		nk := int(data[pos])
+		pos++
+		if nk > 0 {
+			m.Trailer = make(http.Header)
+		}
+		for i := 0; i < nk; i++ {
+			k, p, ok := getStr(data, pos)
+			if !ok || p >= len(data) {
+				return errStubDomain
+			}
+			nv := int(data[p])
+			pos = p + 1
+			var vs []string
+			for j := 0; j < nv; j++ {
+				x, p2, ok := getStr(data, pos)
+				if !ok {
+					return errStubDomain
+				}
+				vs = append(vs, x)
+				pos = p2
+			}
+			m.Trailer[k] = vs
+		}
+		return nil
 	}
-	return errors.New("json stub: input outside the modelled domain")
+	return errStubDomain
 }
 
 func closedChan() chan struct{} {
